@@ -65,6 +65,12 @@ Theorem C10_merkle_leaf_code_is_model : forall e,
 Proof. exact gen_merkle_tree_leaf_is_model. Qed.
 Print Assumptions C10_merkle_leaf_code_is_model.
 
+Theorem C10_append_tile_leaf_code_is_model : forall t e,
+  gen_append_tile_leaf (add_extensions e) (l_cert e) (l_fps e) (l_pre e) (l_ikh e) (l_precert e) t (u64 (l_ts e))
+  = append_tile_leaf t e.
+Proof. exact gen_append_tile_leaf_is_model. Qed.
+Print Assumptions C10_append_tile_leaf_code_is_model.
+
 (* non-vacuity: a concrete precertificate entry with two fingerprints meets the hypotheses *)
 Example C10_wf_example :
   wf_leaf (mkLeaf [x30; x82] true (repeat x07 32) [repeat x01 32; repeat x02 32] [x30; x03] 1099511627775 false 1700000000000) = true
